@@ -30,6 +30,12 @@ def obligations(tier):
         {'name': 'C10.a/udf_csum', 'engine': 'py', 'module': K, 'func': 'udf_csum', 'cond_timeout': 300,
          'bounds': 'all 16-byte tags', 'functions': ['udf._compute_csum']},
     ]
+    for nf in ((44, 43) if tier == 'quick' else (44, 43, 45, 90, 20)):
+        obs.append({'name': 'C10.c/fid_packing/nfill%d' % nf, 'engine': 'chx', 'module': 'vf.props.C10_h', 'func': 'fid_packing', 'params': {'nfill': nf},
+                    'cond_timeout': 900, 'path_timeout': 200,
+                    'bounds': 'UDF root directory with %d concrete 4-character names + 3 identifiers with symbolic name lengths in [1,254]' % nf,
+                    'functions': ['UDFFileEntry.add_file_ident_desc', 'UDFFileIdentifierDescriptor.length', 'PyCdlib._udf_assign_extents', 'PyCdlib._reshuffle_extents', 'PyCdlib._finish_add'],
+                    'samples': [(30, 4, 4), (31, 4, 4)], 'stubs': ['names modelled by their length (Span)']})
     if tier != 'quick':
         obs.append({'name': 'C10.a/crc_ccitt_msg2', 'engine': 'py', 'module': K, 'func': 'crc_ccitt_msg', 'params': {'n': 2}, 'cond_timeout': 3000,
                     'bounds': 'all messages of 2 bytes', 'functions': ['udf.crc_ccitt']})
